@@ -83,6 +83,42 @@ Definition call_gate (domovoi callee_method_safe caller_deployed : bool)
     end
   else true.
 
+(* ---- method overloads: the callee method is resolved by name AND argument count (ABI.GetMethod(name, len(args)));
+   the Safe bit that decides flag masking and whether the permission check runs must be that of the very overload
+   the executor runs ---- *)
+Record abi_method := mk_md { md_name : string; md_arity : N; md_safe : bool }.
+
+Fixpoint find_method (abi : list abi_method) (name : string) (n : N) : option abi_method :=
+  match abi with
+  | [] => None
+  | md :: t => if String.eqb (md_name md) name && (md_arity md =? n) then Some md else find_method t name n
+  end.
+
+(* the defective lookup: first ABI entry with the name *)
+Fixpoint find_method_by_name (abi : list abi_method) (name : string) : option abi_method :=
+  match abi with
+  | [] => None
+  | md :: t => if String.eqb (md_name md) name then Some md else find_method_by_name t name
+  end.
+
+(* what a call of name/n from a deployed caller with [perms], asking for flags f from a frame with all flags, gets:
+   (permitted?, flags of the callee) ; None = method not found *)
+Definition overload_call (abi : list abi_method) (name : string) (n : N) (perms : list permission) (c : callee) (f : N)
+  : option (bool * N) :=
+  match find_method abi name n with
+  | Some md => Some (call_permitted (md_safe md) true perms c name,
+                     N.land 15 (if md_safe md then N.ldiff f 10 else f))
+  | None => None
+  end.
+
+Definition overload_call_by_name (abi : list abi_method) (name : string) (n : N) (perms : list permission) (c : callee) (f : N)
+  : option (bool * N) :=
+  match find_method abi name n, find_method_by_name abi name with
+  | Some _, Some md => Some (call_permitted (md_safe md) true perms c name,
+                             N.land 15 (if md_safe md then N.ldiff f 10 else f))
+  | _, _ => None
+  end.
+
 (* ---- specification: the declarative reading of the property text ---- *)
 Definition desc_matches (d : desc) (c : callee) : Prop :=
   match d with
